@@ -84,8 +84,11 @@ class C06(CheckBase):
             cls = rng.weighted([(4, 'G'), (6, 'S')])
             return {'level': 'track', 'enc': enc, 'spt': spt, 'cyl': rng.below(80), 'head': rng.below(2), 'seed': rng.below(1 << 30),
                     'class': cls, 'ntracks': 12, 'damage_seed': rng.below(1 << 30), 'altmarks': rng.chance(0.3)}
-        fc = fluxwork.gen_fluxcase(rng, small=True, sides=rng.weighted([(4, 1), (1, 2)]))
-        mode = rng.weighted([(3, 'one-track'), (2, 'few-tracks'), (4, 'radial'), (4, 'reid')])
+        mode = rng.weighted([(3, 'one-track'), (2, 'few-tracks'), (4, 'radial'), (4, 'reid'), (4, 'catkill')])
+        if mode == 'catkill':
+            fc = fluxwork.gen_fluxcase(rng, small=True, sides=rng.weighted([(1, 1), (4, 2)]), container=rng.weighted([(2, 'mfm'), (1, 'hfe1'), (1, 'hfe3')]))
+        else:
+            fc = fluxwork.gen_fluxcase(rng, small=True, sides=rng.weighted([(4, 1), (1, 2)]))
         cls = rng.weighted([(3, 'G'), (7, 'S')])
         side = rng.below(fc['sides'])
         dmg = {}
@@ -111,6 +114,13 @@ class C06(CheckBase):
                 if newid[:3] != [t, side, r] or newid[3] != 1:
                     reid['%d:%d:%d' % (side, t, r)] = newid
             fc['reid'] = reid
+        elif mode == 'catkill':
+            # one side loses a catalogue sector (or its ID): that side can no longer be recognised as a file system,
+            # which must not change what the drive numbers of the image refer to
+            side = rng.weighted([(3, 0), (1, fc['sides'] - 1)])
+            rec = rng.below(2)
+            region = rng.weighted([(3, 'data'), (1, 'datacrc'), (1, 'idmark'), (1, 'datamark')])
+            dmg['%d:0' % side] = [{'k': rng.choice(['flip', 'drop']), 'region': region, 'rec': rec, 'off': rng.below(100000), 'len': 16, 'v': 0}]
         elif mode == 'radial':
             # the same damage to the same sector on every track (a scratch)
             rec = rng.weighted([(3, fc['spt'] - 1), (2, rng.below(fc['spt'])), (1, 0)])
@@ -124,7 +134,7 @@ class C06(CheckBase):
             for t in tracks:
                 dmg['%d:%d' % (side, t)] = gen_damage(rng, fc['spt'], cls)
         surfaces = [dd.gen_surface(rng, variant='acorn', geom=(fc['tracks'], fc['spt']), img_id=4, side=s).to_json() for s in range(fc['sides'])]
-        return {'level': 'image', 'flux': fc, 'surfaces': surfaces, 'damage': dmg, 'mode': mode, 'class': cls if mode not in ('radial', 'reid') else 'S'}
+        return {'level': 'image', 'flux': fc, 'surfaces': surfaces, 'damage': dmg, 'mode': mode, 'class': cls if mode not in ('radial', 'reid', 'catkill') else 'S'}
 
     # ------------------------------------------------------------------ execution
     def run_case(self, case, ctx):
@@ -242,7 +252,17 @@ class C06(CheckBase):
             out.probe('image-rejected')
             out.sig('image', fc['container'], fc['enc'], case['mode'], 'rejected')
             return
-        for di, d in enumerate(j['drives'][:fc['sides']]):
+        other_side = {}
+        for sd in range(fc['sides']):
+            for lba in range(fc['tracks'] * fc['spt']):
+                other_side[rendered[sd][lba * 256:(lba + 1) * 256]] = (sd, lba)
+        for d in j['drives']:
+            # under the (default) physical policy side 0 of an image is drive 0 and side 1 is drive 2, whatever can
+            # or cannot be recognised on either side
+            di = {0: 0, 2: 1}.get(d['n'])
+            if di is None or di >= fc['sides']:
+                out.probe('drive-number-outside-the-image')
+                continue
             g = d['geometry']
             spt_seen = g[2]
             if spt_seen <= 0:
@@ -266,6 +286,10 @@ class C06(CheckBase):
                 if src is not None:
                     out.violate('C06.d', '%s: side %d: reading track %d sector %d returned the data recorded at track %d sector %d'
                                 % (what, di, t, s, src // fc['spt'], src % fc['spt']), dict(desc, what='image-misaddressed'), case)
+                elif bytes(sec) in other_side:
+                    osd, olba = other_side[bytes(sec)]
+                    out.violate('C06.d', '%s: drive %d (side %d): reading track %d sector %d returned the data recorded on side %d at track %d sector %d'
+                                % (what, d['n'], di, t, s, osd, olba // fc['spt'], olba % fc['spt']), dict(desc, what='image-other-side'), case)
                 elif case['class'] == 'G':
                     out.violate('C06.d', '%s: side %d: reading track %d sector %d returned data never recorded' % (what, di, t, s), dict(desc, what='image-wrong-data'), case)
                 else:
